@@ -59,3 +59,33 @@
            (and (< e (slen t)) (= (at t e) 46) (tfWFO rest))
            (and (< e (slen t)) (= (at t e) 35) (tfWFL rest))))))))
   :pattern ((tfWFL tf)))))
+
+; ---- C11: the containers on a tree-form path (the frame of a tree-form write).
+; onPathO(h, r, tf, c): c is the object r itself or lies on the path tf below it, as far as the path resolves
+; through existing intermediates of the kind the next sigil requires (what a write reuses); unfolded one
+; segment at a time like tfDefO / tfDefL.  Everything that is not on the path is outside the frame.
+(declare-fun onPathO (Heap Int Str Int) Bool)
+(declare-fun onPathL (Heap Int Str Int) Bool)
+(assert (forall ((h Heap) (r Int) (tf Str) (c Int)) (! (=> (gh h) (= (onPathO h r tf c)
+  (or (= c r)
+      (let ((t (sub tf 1 (slen tf)))) (let ((e (segEnd t))) (let ((key (sub t 0 e)) (rest (sub t e (slen t))) (m (select (Omap h) r)))
+      (let ((child (select (select (MVal h) m) key)))
+        (and (>= (slen tf) 2) (= (at tf 0) 46) (> e 0) (< e (slen t)) (select (select (MDom h) m) key)
+             (ite (= (at t e) 46)
+                  (and ((_ is VObj) child) (onPathO h (impl (voref child)) rest c))
+                  (and ((_ is VList) child) (onPathL h (impl (vlref child)) rest c)))))))))))
+  :pattern ((onPathO h r tf c)))))
+(assert (forall ((h Heap) (r Int) (tf Str) (c Int)) (! (=> (gh h) (= (onPathL h r tf c)
+  (or (= c r)
+      (let ((t (sub tf 1 (slen tf)))) (let ((e (segEnd t))) (let ((seg (sub t 0 e)) (rest (sub t e (slen t))))
+      (let ((idx (parseIdx seg))) (let ((child (select (select (Mem h) (select (Larr h) r)) idx)))
+        (and (>= (slen tf) 2) (= (at tf 0) 35) (isIdx seg) (<= 0 idx) (< idx (select (Llen h) r)) (< e (slen t))
+             (ite (= (at t e) 46)
+                  (and ((_ is VObj) child) (onPathO h (impl (voref child)) rest c))
+                  (and ((_ is VList) child) (onPathL h (impl (vlref child)) rest c))))))))))))
+  :pattern ((onPathL h r tf c)))))
+; first segment of a tree-form path and whether it is the last one
+(define-fun tfSeg ((tf Str)) Str (sub (sub tf 1 (slen tf)) 0 (segEnd (sub tf 1 (slen tf)))))
+(define-fun tfLeaf ((tf Str)) Bool (= (segEnd (sub tf 1 (slen tf))) (slen (sub tf 1 (slen tf)))))
+; the sigil after the first segment is a '.' (the next container must be an object) / a '#' (a list)
+(define-fun tfNextDot ((tf Str)) Bool (= (at (sub tf 1 (slen tf)) (segEnd (sub tf 1 (slen tf)))) 46))
